@@ -589,6 +589,11 @@ func Iterate(val Value, it Iteratee) (int, error) {
 	switch r.Kind() {
 	case reflect.Slice, reflect.Array:
 		ln := r.Len()
+		if r.Kind() == reflect.Slice {
+			// The iteratee may shorten a slice that is reached through a
+			// pointer: the elements present now are the ones visited.
+			r = r.Slice(0, ln)
+		}
 		l := Loop{
 			ln == 1,
 			1,
